@@ -1,7 +1,7 @@
 (* Corr/C19.v — judge for the C19 correspondence: traced file-system operations and before/after
    snapshots of real FORD runs in a sandbox vs. Out/FsModel.v *)
 From Ford Require Import Base.Str Out.FsModel.
-From Coq Require Import String.
+From Coq Require Import String NArith.
 
 Definition op_eqb (a b : op) : bool :=
   match a, b with
@@ -43,8 +43,8 @@ Fixpoint subseq_ops (a b : list op) : bool :=
   end.
 
 (* metadata snapshot entry: (is a directory, identifier of (kind, content hash, mode, mtime)) *)
-Definition meta := (bool * nat)%type.
-Definition meta_eqb (a b : meta) : bool := Bool.eqb (fst a) (fst b) && Nat.eqb (snd a) (snd b).
+Definition meta := (bool * N)%type.
+Definition meta_eqb (a b : meta) : bool := Bool.eqb (fst a) (fst b) && N.eqb (snd a) (snd b).
 
 Record case := {
   k_mode : nat;                        (* 0 complete run, 1 crash (prefix), 2 injected OSError *)
